@@ -150,6 +150,13 @@ def _optimize_contractions(relevant_obj_names: tuple[str],
         contr_names = tuple(relevant_obj_names[pos] for pos in group)
         contraction = Contraction(indices=contr_indices, names=contr_names,
                                   term_target_indices=target_indices)
+        # the contraction sums all indices that occur more than once in the
+        # group. This is only valid if none of those indices occurs on an
+        # object that is not part of the group.
+        if any(idx in relevant_obj_indices[pos]
+               for idx in contraction.contracted
+               for pos in range(len(relevant_obj_names)) if pos not in group):
+            continue
         # if the contraction is not an outer contraction we have to check
         # the dimensionality of the intermediate tensor
         if max_itmd_dim is not None and \
